@@ -435,6 +435,24 @@ class BlackbirdProgram:
             # line break
             script.append("")
 
+        # the arrays passed as arguments are declared as A0, A1, ...; a name that a
+        # variable written above already uses is taken only if that variable is the same array
+        declared = self._var if self.programtype["name"] == "tdm" else {}
+
+        def _array_name(value):
+            nonlocal var_count
+            while True:
+                var_name = "A{}".format(var_count)
+                var_count += 1
+                other = declared.get(var_name)
+                if other is None or (
+                    isinstance(other, np.ndarray)
+                    and other.dtype == value.dtype
+                    and other.shape == value.shape
+                    and np.array_equal(other, value)
+                ):
+                    return var_name
+
         # loop through each quantum operation
         for op in self.operations:
             if len(op["modes"]) == 1:
@@ -455,9 +473,8 @@ class BlackbirdProgram:
                     # correctly depending on its type
                     if isinstance(v, np.ndarray):
                         # create an array variable
-                        var_name = "A{}".format(var_count)
+                        var_name = _array_name(v)
                         args.append(var_name)
-                        var_count += 1
 
                         # add array declaration to script after the metadata block
                         bb_array = numpy_to_blackbird(v, var_name)
@@ -476,9 +493,8 @@ class BlackbirdProgram:
                     # correctly depending on its type
                     if isinstance(v, np.ndarray):
                         # create an array variable
-                        var_name = "A{}".format(var_count)
+                        var_name = _array_name(v)
                         kwargs.append("{}={}".format(k, var_name))
-                        var_count += 1
 
                         # add array declaration to script
                         bb_array = numpy_to_blackbird(v, var_name)
